@@ -133,6 +133,7 @@ def run(ctx):
     _phased_x_export(ctx, repo)
     _condition_export_covers_fields(ctx, repo)
     _qudit_gates_refused(ctx, repo)
+    _identifier_validators_match_whole_string(ctx, repo, 'C19.l')
     ctx.decided += [
         'C19.a emitted QASM of the table-defined gate families == gate matrix up to global phase (probe exponents/shifts; qelib1 semantics held in the checker)',
         'C19.b every mnemonic in every _qasm_ format string exists in qelib1/stdgates with that parameter and operand count; operands distinct; angles printed as half turns',
@@ -890,6 +891,31 @@ def _condition_export_covers_fields(ctx, repo):
                    f'the exported condition never looks at `{fl}`: two conditions that differ in it are written as the same QASM test', ci.mod.rel, (fn or qp).lineno)
     if n == 0:
         raise AnalysisError('C19.j: no Condition class with a QASM export found')
+
+
+def _identifier_validators_match_whole_string(ctx, repo, rid='C19.l'):
+    """The register-name validator of the QASM output accepts a key only if the whole string is an identifier."""
+    ctx.decided.append(f'{rid} the compiled patterns QasmOutput validates identifiers with are anchored at the very end of the string (\\Z or fullmatch), not with `$`, which also matches before a trailing newline')
+    ctx.rule(rid, 'identifier validation is about the whole string: every regular expression compiled in cirq.circuits.qasm_output and applied with .match() ends in `\\Z` (or is applied with '
+             '.fullmatch()); a pattern ending in `$` accepts "a\\n", which is then written as a register name that reads as `m_a` - two keys share one register', floor=1, style='TBL')
+    m = repo.module('cirq-core/cirq/circuits/qasm_output.py')
+    n = 0
+    pats = {}
+    for st in ast.walk(m.tree):
+        if isinstance(st, ast.Assign) and len(st.targets) == 1 and isinstance(st.targets[0], ast.Name) and isinstance(st.value, ast.Call) and call_name(st.value) == 'compile' \
+                and st.value.args and isinstance(st.value.args[0], ast.Constant) and isinstance(st.value.args[0].value, str):
+            pats[st.targets[0].id] = (st.value.args[0].value, st.lineno)
+    for name, (pat, line) in sorted(pats.items()):
+        uses = [c for c in ast.walk(m.tree) if isinstance(c, ast.Call) and isinstance(c.func, ast.Attribute) and c.func.attr in ('match', 'fullmatch', 'search')
+                and ((isinstance(c.func.value, ast.Attribute) and c.func.value.attr == name) or (isinstance(c.func.value, ast.Name) and c.func.value.id == name))]
+        if not uses or all(c.func.attr == 'search' for c in uses):
+            continue
+        n += 1
+        ok = pat.endswith('\\Z') or all(c.func.attr == 'fullmatch' for c in uses)
+        ctx.ob(rid, f'{m.name}:{name}', ok, '' if ok else f'pattern {pat!r} is applied with .match() and does not end in \\Z: a trailing newline (or, without an end anchor, any suffix) is accepted '
+               'as part of a valid identifier', m.rel, line)
+    if n == 0:
+        raise AnalysisError(f'{rid}: no identifier validator found in qasm_output.py')
 
 
 def _qudit_gates_refused(ctx, repo, rid='C19.k'):
